@@ -693,7 +693,9 @@ func (e *Engine) VerifyFunc(fn *ssa.Function, c *Contract, prop string) {
 	fr.ret = func(st *State, rets []*Val) {
 		e.checkPost(st, fr0(st, fn), c, rets)
 	}
+	e.callsiteHit = map[string]bool{}
 	e.runPath(func() { e.execBlock(st, fn.Blocks[0], nil) })
+	e.callsiteUnused(st, c)
 }
 
 func fr0(st *State, fn *ssa.Function) *Frame { return st.frames[0] }
